@@ -73,10 +73,14 @@ def loop_checks(chk, prog, fn, reader, only_tail=False):
     except sym.Undecided as e:
         chk.blind("VN", FN, "block loop could not be summarised: %s" % e, fn.where())
         return
-    chk.ob("VN", FN, len(ls) == 1, "%d loop(s) in the decoder (one expected)" % len(ls), fn.where(), key="one-loop")
-    if len(ls) != 1:
+    # the block loop is the loop that reads a DataBlockId; loops that only prepare the pointer list come before it and are
+    # judged through the value they produce (the iterator's source below)
+    bid_name = DES % (D + "data_block_id::DataBlockId")
+    cand = [l for l in ls if any(sym._mentions(c[0], ("call", bid_name, (reader,))) for conds, _k, _v in l["paths"] for c in conds)]
+    chk.ob("VN", FN, len(cand) == 1, "%d loop(s) in the decoder read a block id (one expected; %d loops in all)" % (len(cand), len(ls)), fn.where(), key="one-loop")
+    if len(cand) != 1:
         return
-    lp = ls[0]
+    lp = cand[0]
     w = lp["where"]
     names = {fn.local_name(l): l for l in lp["tracked"]}
     if "message" not in names or "iter" not in names:
@@ -92,12 +96,11 @@ def loop_checks(chk, prog, fn, reader, only_tail=False):
     raw = ("mutated", "std::io::Read::read_exact", 1, (reader, call("alloc::vec::from_elem", C(0, "u8"), binop("Mul", cast(fld(hdr, "data_block_count"), "u16", "usize"), C(4, "usize"), "usize"))))
     body_ok = False
     tbl_ok = False
-    if it0[0] == "call" and it0[1].endswith("into_iter") and it0[2][0][0] == "vfld" and it0[2][0][1][0] == "seq":
-        sq = it0[2][0][1]
-        src = sq[1]
-        tbl_ok = src[0] == "chunks" and src[2] == C(4, "usize") and strip_ovf_deep(src[1]) == raw and sq[2] == ()
-        per = [x for x in sym._leaves(sq[3], []) if x[0] == "adt" and x[2] == "Ok"]
-        body_ok = len(per) == 1 and per[0][3][0][1][0] == "be" and per[0][3][0][1][2] == "u32"
+    src, per = pointer_list(it0)
+    if src is not None:
+        tbl_ok = src[0] == "chunks" and src[2] == C(4, "usize") and sym.sem_eq(strip_ovf_deep(src[1]), raw)
+        body_ok = per is not None and per[0] == "be" and per[2] == "u32" and sym.norm_arith(per[1]) in (sym.ELEM, ("vfld", ("call", "core::convert::TryInto::try_into", (sym.ELEM,)), "Ok", "0")) \
+            or (per is not None and per[0] == "be" and per[2] == "u32" and set(a for a in sym.atoms(per[1]) if a[0] == "p") == {sym.ELEM})
     chk.ob("VN", FN, tbl_ok, "the pointer table is data_block_count x 4 bytes read immediately after the header, split into 4-byte chunks in order", w, key="pointer-table")
     chk.ob("VN", FN, body_ok, "each pointer is the big-endian u32 of its chunk", w, key="pointer-endianness")
     # iterations
@@ -175,6 +178,27 @@ def loop_checks(chk, prog, fn, reader, only_tail=False):
     chk.floor("dispatch arms", len(found), 10)
     # position base taken before anything is read; rewind constant = DataBlockId wire size
     term.check_seek_discipline(chk, prog, [FN], interval.Engine(prog))
+
+
+def pointer_list(it0):
+    """(source, per-element value) of the list of pointers the block loop iterates: a collected `chunks(4).map(..)` chain
+    (the elements' Ok payloads) or a vector filled by a push loop (comprehension form)"""
+    x = it0
+    while x[0] == "call" and x[1].endswith("into_iter") and len(x[2]) == 1:
+        x = x[2][0]
+    if x[0] == "vfld" and x[2] == "Ok" and x[1][0] == "seq" and x[1][2] == ():
+        sq = x[1]
+        per = [y for y in sym._leaves(sq[3], []) if y[0] == "adt" and y[2] == "Ok"]
+        src = sq[1]
+        return src, (per[0][3][0][1] if len(per) == 1 else None)
+    c = sym.comp_of(x)
+    if c is not None:
+        g = c[2]
+        src = c[1]
+        while src[0] == "iter":
+            src = src[1]
+        return src, (g[3][0][1] if g[0] == "adt" and g[2] == "Some" else None)
+    return None, None
 
 
 def strip_ovf(t):
